@@ -369,6 +369,12 @@ pub fn run(ctx: &Arc<Ctx>) {
                 cases.push(Case::CbcLastByte { v, wellformed: true, blocks });
             }
         }
+        // a self-consistent run of v copies of v for v > 16 (a "verify the whole padding" rewrite that drops the upper bound
+        // accepts it): enough blocks to hold the run
+        if v > 16 {
+            cases.push(Case::CbcLastByte { v, wellformed: true, blocks: (v as usize + 15) / 16 });
+            cases.push(Case::CbcLastByte { v, wellformed: true, blocks: (v as usize + 15) / 16 + 1 });
+        }
     }
     ctx.sample(serde_json::to_value(&cases[5]).unwrap());
     ctx.sample(serde_json::to_value(&cases[cases.len() - 1]).unwrap());
